@@ -227,8 +227,11 @@ impl RoutingThread {
                     .unwrap();
             }
             Message::Block(_) => {
-                error!("received block message");
-                unreachable!();
+                // blocks are fetched over http, never pushed. a peer sending one is ignored
+                warn!(
+                    "received block message from peer : {:?}. ignoring",
+                    peer_index
+                );
             }
         }
     }
